@@ -162,7 +162,7 @@ impl HttpSession {
                 public_address,
             );
             context
-                .create_stream(request_id, 1 << 16)
+                .create_stream(request_id, (1 << 16) - 1)
                 .ok_or(AcceptError::BufferCapacityReached)?;
             HttpStateMachine::Mux(Mux {
                 configured_frontend_timeout,
@@ -345,7 +345,7 @@ impl HttpSession {
                     Some(session_address),
                     public_address,
                 );
-                if context.create_stream(expect.request_id, 1 << 16).is_none() {
+                if context.create_stream(expect.request_id, (1 << 16) - 1).is_none() {
                     error!(
                         "{} expect upgrade failed: could not create stream",
                         log_context!(self)
